@@ -476,7 +476,10 @@ def numeric_strings(d, rng):
            # a hair away from an f32 midpoint: parsing through f64 and narrowing rounds twice
            "16777217.0000000001", "16777216.9999999999", "1.0000000596046448", "1.00000005960464478", "7.038531e-26",
            "0.10000000149011612", "33554434.0000000001", "-16777217.0000000001", "1.00000017881393421514957253748434595763683319091796875",
-           "9007199254740993", "9007199254740992.9999"]
+           "9007199254740993", "9007199254740992.9999",
+           "+-5", "++5", "-+5", "+", "+-0", "++inf", "+-NaN", "+ 5",
+           "1" + "0" * 308, "-1" + "0" * 308 + ".0", "0." + "0" * 300 + "1", "0" * 300 + "1.5", "1" * 257, "9" * 400, "0." + "3" * 300,
+           "340282346638528859811704183484516925440", "340282346638528859811704183484516925440.0000000000000000000000000000000000000000000000000000"]
     if d.inner in INT_TYPES:
         lo, hi = ity_min(d.inner), ity_max(d.inner)
         for b in list(getattr(d, "bounds", [])) + [lo, hi, 0]:
@@ -762,7 +765,8 @@ def pair_inputs(d, rng, tier):
         base = vals[:: max(1, len(vals) // 10)][:10] + [("i", b) for b in getattr(d, "bounds", [])]
         base = [v for v in base if v in vals or True]
     elif fam == "str":
-        base = [("s", x) for x in ["", "a", "A", " a", "a ", "ab", "aB", "b", "a@", "abc", "zz7", "  ", "x"]]
+        base = [("s", x) for x in ["", "a", "A", " a", "a ", "ab", "aB", "b", "a@", "abc", "zz7", "  ", "x",
+                                   "\U0001F600", "\uff21", "\ue000", "a\U0001F600", "a\uff21", "\U00010400"]]
     else:
         base = vals[:10]
     seen, out = set(), []
@@ -945,7 +949,7 @@ def c13(tier, rng, rep, only=None):
                     rep.violation("%s does not expose the stored inner value for input %s of %s" % (k, c.arg, c.decl.id), case_payload(c, g))
         else:
             npairs += 1
-            for a, b_ in (("eq", "ieq"), ("ne", "ine"), ("self", "iself"), ("pcmp", "ipcmp"), ("ops", "iops"), ("cmp", "icmp"), ("mm", "imm"), ("cf", "icf")):
+            for a, b_ in (("eq", "ieq"), ("ne", "ine"), ("self", "iself"), ("pcmp", "ipcmp"), ("ops", "iops"), ("cmp", "icmp"), ("mm", "imm"), ("cf", "icf"), ("eqc", "ieqc")):
                 if a in kv:
                     fields[a] = fields.get(a, 0) + 1
                     if kv[a] != kv[b_]:
@@ -1669,6 +1673,29 @@ def c08(tier, rng, rep, only=None):
                     rep.known_hit("empty_literal_range_accepted", "exclusive literal bounds that leave no value between them (e.g. greater = 5, less = 6 on integers) are accepted")
                 else:
                     rep.violation("declaration %s breaks the reference rule %s but is accepted" % (d.id, ref), payload)
+    # ---- declarations written through macro_rules! helpers: the inner type arrives as a `ty` / `ident` fragment
+    if only is None:
+        mods = []
+        for i, (frag, inner, rules, use) in enumerate((
+                ("ty", "i32", "validate(greater_or_equal = 1, less = 100)", "T::try_new(5).is_ok() && T::try_new(100).is_err()"),
+                ("ty", "u8", "validate(less_or_equal = 9)", "T::try_new(9).is_ok() && T::try_new(10).is_err()"),
+                ("ty", "f64", "validate(finite, greater = 0.0)", "T::try_new(1.5).is_ok() && T::try_new(f64::NAN).is_err()"),
+                ("ty", "String", "sanitize(trim, lowercase), validate(not_empty, len_char_max = 5)", "T::try_new(\" Ab \").map(|t| t.into_inner()).ok() == Some(\"ab\".to_string())"),
+                ("ident", "i64", "validate(greater = 0)", "T::try_new(1).is_ok()"),
+                ("tt", "f32", "validate(finite)", "T::try_new(1.0).is_ok()"),
+                ("ty", "Vec<i32>", "validate(predicate = |v| !v.is_empty())", "T::try_new(vec![1]).is_ok()"))):
+            text = ("pub mod mr%d {\n    #![allow(dead_code, unused_imports)]\n    use nutype::nutype;\n"
+                    "    macro_rules! mk { ($n:ident, $t:%s) => { #[nutype(%s, derive(Debug))] pub struct $n($t); } }\n    mk!(T, %s);\n"
+                    "    pub fn check() -> bool { %s }\n}\n" % (i, frag, rules, inner, use))
+            mods.append(("mr%d" % i, text))
+        wsx = runner.ModuleWorkspace("verdict_extra", runner.FEATURES_ALL, nshards=4)
+        droppedx = wsx.verdicts(mods)
+        for mid, text in mods:
+            n += 1
+            classes["macro_rules_generated"] = classes.get("macro_rules_generated", 0) + 1
+            if mid in droppedx:
+                rep.violation("a declaration generated by a macro_rules! helper is refused: %s" % droppedx[mid][0][:200],
+                              {"kind": "verdict", "module": text, "rustc": droppedx[mid][:3]})
     # ---- the #[test]s the macro emits for what it cannot decide itself
     n_tests = 0
     if only is None:
